@@ -4,26 +4,53 @@
 // complete projection of both data bases before and after each call (names, roles, bit-exact
 // content hashes).  TLC (TraceCalculator) judges Atomic / Exact / Usable on the log.
 //
-// usage: calc_run <scenarios.ndjson> <out.ndjson>
+// usage: calc_run <scenarios.ndjson> <out.ndjson> [first scenario]
 #include "vjson.hpp"
+#include "geoslib_f.h"
 #include "Basic/VerifHook.hpp"
+#include "Basic/Law.hpp"
 #include "Db/Db.hpp"
 #include "Db/DbGrid.hpp"
 #include "Model/Model.hpp"
 #include "Neigh/NeighUnique.hpp"
 #include "Neigh/NeighMoving.hpp"
+#include "Neigh/NeighImage.hpp"
 #include "Estimation/CalcKriging.hpp"
+#include "Estimation/CalcKrigingFactors.hpp"
+#include "Estimation/CalcImage.hpp"
+#include "Estimation/CalcGlobal.hpp"
 #include "Matrix/MatrixSquareSymmetric.hpp"
 #include "Estimation/CalcSimpleInterpolation.hpp"
 #include "Simulation/CalcSimuTurningBands.hpp"
 #include "Simulation/CalcSimuFFT.hpp"
 #include "Simulation/SimuFFTParam.hpp"
+#include "Simulation/CalcSimuPartition.hpp"
+#include "Simulation/SimuPartitionParam.hpp"
+#include "Simulation/CalcSimuSubstitution.hpp"
+#include "Simulation/SimuSubstitutionParam.hpp"
+#include "Simulation/CalcSimuEden.hpp"
+#include "Simulation/CalcSimuRefine.hpp"
+#include "Simulation/SimuRefineParam.hpp"
+#include "Simulation/SimuBoolean.hpp"
+#include "Simulation/SimuBooleanParam.hpp"
+#include "Boolean/ModelBoolean.hpp"
+#include "Boolean/ShapeParallelepiped.hpp"
 #include "Calculators/CalcMigrate.hpp"
 #include "Calculators/CalcStatistics.hpp"
+#include "Calculators/CalcGridToGrid.hpp"
+#include "Calculators/CalcSimuPost.hpp"
+#include "Calculators/CalcSimuPostDemo.hpp"
+#include "Calculators/CalcSimuPostPropByLayer.hpp"
 #include "Anamorphosis/AnamHermite.hpp"
+#include "Anamorphosis/CalcAnamTransform.hpp"
+#include "Stats/Selectivity.hpp"
+#include "Enum/ESelectivity.hpp"
 #include "Enum/ECov.hpp"
 #include "Enum/EKrigOpt.hpp"
 #include "Enum/EStatOption.hpp"
+#include "Enum/EMorpho.hpp"
+#include "Enum/EPostStat.hpp"
+#include "Enum/EPostUpscale.hpp"
 #include "Enum/ELoadBy.hpp"
 #include "Space/ASpaceObject.hpp"
 #include "Space/SpaceRN.hpp"
@@ -32,6 +59,7 @@
 #include <unistd.h>
 #include <cstring>
 #include <cstdint>
+#include <set>
 
 using vj::Value;
 
@@ -79,6 +107,13 @@ static Value project(const Db* db)
   return s;
 }
 
+static std::vector<std::string> namesOf(const Db* db)
+{
+  std::vector<std::string> v;
+  if (db != nullptr) for (int i = 0; i < db->getColumnNumber(); i++) v.push_back(db->getNameByColIdx(i));
+  return v;
+}
+
 // ---------------------------------------------------------------- data
 static Db* makeData(int ndim, int nvar, bool withZ, bool withDrift)
 {
@@ -118,6 +153,22 @@ static DbGrid* makeGrid(int ndim, bool withDrift)
   return g;
 }
 
+// a grid carrying variables: nz columns "z1".. (role Z unless withZ = false)
+static DbGrid* makeGridZ(const VectorInt& nx, int nz = 1, bool withZ = true, double dxv = 1.0)
+{
+  VectorDouble dx, x0;
+  for (int i = 0; i < (int)nx.size(); i++) { dx.push_back(dxv); x0.push_back(0.25); }
+  DbGrid* g = DbGrid::create(nx, dx, x0);
+  int n = g->getSampleNumber();
+  for (int iz = 0; iz < nz; iz++)
+  {
+    VectorDouble v(n);
+    for (int i = 0; i < n; i++) v[i] = 0.3 + 0.9 * ((i * 7 + 3 * iz) % 5) - 0.15 * iz + 0.01 * i;
+    g->addColumns(v, "z" + std::to_string(iz + 1), withZ ? ELoc::Z : ELoc::UNKNOWN, iz);
+  }
+  return g;
+}
+
 static Db* makePoints(int ndim)
 {
   VectorDouble tab = {0.5, 1.5, 2.5, 1.1, 0.6, 1.4, 2.2, 0.9};
@@ -126,34 +177,28 @@ static Db* makePoints(int ndim)
   return Db::createFromSamples(4, ELoadBy::COLUMN, tab, names, locs, false);
 }
 
-// prior content: "clash" adds to the output db columns that collide with what the calculator will
-// create (same names, same role type) plus an unrelated column with a role
-static void applyPrior(Db* db, const std::string& prior, const std::string& prefix)
+static void addCol(Db* db, const std::string& name, double a, double b, const ELoc& loc = ELoc::UNKNOWN, int idx = 0)
 {
-  if (prior != "clash" || db == nullptr) return;
   int n = db->getSampleNumber();
-  VectorDouble a(n), b(n), c(n);
-  for (int i = 0; i < n; i++) { a[i] = 100 + i; b[i] = 200 + i * 0.5; c[i] = (i % 2); }
-  db->addColumns(a, prefix + ".z1.estim", ELoc::Z, 0);
-  db->addColumns(b, prefix + ".z1.stdev", ELoc::V, 0);
-  db->addColumns(c, "keepme", ELoc::W, 0);
+  VectorDouble v(n);
+  for (int i = 0; i < n; i++) v[i] = a + b * i;
+  db->addColumns(v, name, loc, idx);
 }
 
 struct Env
 {
   Db* dbin = nullptr; Db* dbout = nullptr; Model* model = nullptr; ANeigh* neigh = nullptr;
-  AnamHermite* anam = nullptr;
+  AnamHermite* anam = nullptr; Selectivity* sel = nullptr; ModelBoolean* tokens = nullptr;
   bool same = false;
-  std::string prefix;
-  int expectedNew = 0;
-  ~Env() { if (!same) delete dbout; delete dbin; delete model; delete neigh; delete anam; }
+  std::string prefix, prefixIn;
+  ~Env() { if (!same) delete dbout; delete dbin; delete model; delete neigh; delete anam; delete sel; delete tokens; }
 };
 
-static Model* makeModel(int ndim, int nvar, bool extDrift = false)
+static Model* makeModel(int ndim, int nvar, bool extDrift = false, double sill = 1.5)
 {
   Model* m;
   SpaceRN space(ndim);
-  if (nvar == 1) m = Model::createFromParam(ECov::SPHERICAL, 3.0, 1.5, 1., VectorDouble(), VectorDouble(), VectorDouble(),
+  if (nvar == 1) m = Model::createFromParam(ECov::SPHERICAL, 3.0, sill, 1., VectorDouble(), VectorDouble(), VectorDouble(),
                                             &space);
   else
   {
@@ -164,76 +209,289 @@ static Model* makeModel(int ndim, int nvar, bool extDrift = false)
   return m;
 }
 
-// Set up the objects of a scenario and call the entry point. Returns the error code of the call.
-static int runScenario(const std::string& profile, const std::string& variant, const std::string& prior, Env& e,
-                       Value& pre_in, Value& pre_out, bool secondRun = false)
+static const std::set<std::string> OLD_SAME = {"xvalid", "simfft", "anam_transform", "regression", "gaussian_to_raw", "normal_score"};
+// data base layout of the profile
+static const std::set<std::string> SAME_DATA = {"xvalid", "anam_transform", "regression", "gaussian_to_raw", "normal_score",
+                                                "raw_to_factor", "raw_to_factor_ranks", "simupost_self"};
+static const std::set<std::string> SAME_GRID = {"simfft", "simfft_multi", "krimage", "db_smoother", "morpho", "morpho_gradient",
+                                                "cond_expectation", "uniform_cond", "disj_kriging"};
+static const std::set<std::string> OUT_ONLY = {"simtub_nc", "tess_voronoi", "tess_poisson", "substitution", "eden", "eden_stats",
+                                               "simbool_nc"};
+static const std::set<std::string> ANAM_MODEL = {"kriging_dgm", "simtub_dgm", "krig_factors", "krig_factors_cs", "kriggam"};
+
+static const std::map<std::string, std::string> PFX = {
+  {"kriging", "Kriging"}, {"kriging_moving", "Kriging"}, {"kriging_extdrift", "Kriging"}, {"xvalid", "Xvalid"},
+  {"test_neigh", "Neigh"}, {"simtub_nc", "Simu"}, {"simtub_cond", "Simu"}, {"migrate", "Migrate"},
+  {"stats_grid", "Stats"}, {"simple_interp", "InvDist"}, {"simfft", "FFT"}, {"anam_transform", "Y"},
+  {"regression", "Regr"}, {"krigtest", "Kriging"}, {"nearest_neighbor", "Nearest"}, {"moving_average", "MovAve"},
+  {"least_squares", "LstSqr"}, {"migrate_multi", "Migrate"}, {"migrate_locator", "Migrate"}, {"kribayes", "Bayes"},
+  {"kriging_dgm", "Kriging"}, {"krigcell", "KrigCell"}, {"krigprof", "KrigProf"}, {"kriggam", "KrigGam"},
+  {"kriging_varz", "Kriging"}, {"krig_factors", "KD"}, {"krig_factors_cs", "KD"}, {"krimage", "Filtering"},
+  {"db_smoother", "Smooth"}, {"morpho", "Morpho"}, {"morpho_gradient", "Morpho"}, {"invdist_std", "InvDist"},
+  {"moving_median", "MovMed"}, {"simbayes", "SimBayes"}, {"simtub_dgm", "Simu"}, {"simfft_multi", "FFT"},
+  {"tess_voronoi", "Voronoi"}, {"tess_poisson", "Poisson"}, {"substitution", "SimSub"}, {"eden", "Eden"},
+  {"eden_stats", "Eden"}, {"simbool", "Boolean"}, {"simbool_nc", "Boolean"}, {"migrate_attr", "Migrate"},
+  {"g2g_copy", "Copy"}, {"g2g_expand", ""}, {"g2g_shrink", "Shrink"}, {"g2g_interp", "Interpolation"},
+  {"simupost_up", "Post"}, {"simupost_self", "Post"}, {"simupost_demo", "Post"}, {"simupost_layer", "Prop"},
+  {"gaussian_to_raw", "Z"}, {"normal_score", "Gaussian"}, {"raw_to_factor", "Factor"}, {"raw_to_factor_ranks", "Factor"},
+  {"cond_expectation", "CE"}, {"uniform_cond", "UC"}, {"disj_kriging", "DK"}, {"db_proportion", "Prop"}};
+
+static int invoke(const std::string& profile, const std::string& variant, Env& e);
+
+// Build the objects of a scenario (prior "plain"; the "clash" columns are added by the caller)
+static void setup(const std::string& profile, const std::string& variant, Env& e)
 {
   int ndim = 2;
-  if (!secondRun)
-  {
-    int ndimModel = (variant == "ndim_mismatch") ? 3 : 2;
-    int nvarModel = (variant == "nvar_mismatch") ? 2 : 1;
-    bool withZ = variant != "no_z";
-    bool ext = profile == "kriging_extdrift";
-    if (profile == "simfft" || profile == "anam_transform" || profile == "regression" || profile == "xvalid")
-      e.same = true;
-    if (profile == "simtub_nc") e.dbin = nullptr;
-    else e.dbin = makeData(ndim, 1, withZ, ext && variant != "expand");
-    if (profile == "simfft")
-    {
-      delete e.dbin;
-      e.dbin = makeGrid(2, false);
-    }
-    if (e.same) e.dbout = e.dbin;
-    else if (variant == "points_out" || profile == "migrate_pts") e.dbout = makePoints(ndim);
-    else e.dbout = makeGrid(ndim, ext && variant != "no_ext_out");
-    if (variant == "block_on_points") { delete e.dbout; e.dbout = makePoints(ndim); }
-    e.model = makeModel(ndimModel, nvarModel, ext);
-    if (variant == "no_model") { delete e.model; e.model = nullptr; }
-    if (profile == "kribayes" && e.model != nullptr) e.model->setDriftIRF(0);
-    if (profile == "kriging_moving" || profile == "test_neigh" || variant == "moving" || profile == "moving_average" ||
-        profile == "least_squares")
-      e.neigh = NeighMoving::create(false, 5, 10.);
-    else
-      e.neigh = NeighUnique::create();
-    if (variant == "no_neigh") { delete e.neigh; e.neigh = nullptr; }
-    if (profile == "anam_transform")
-    {
-      e.anam = AnamHermite::create(12);
-      if (variant != "anam_not_fitted") e.anam->fitFromLocator(e.dbin);
-    }
-    static const std::map<std::string, std::string> PFX = {
-      {"kriging", "Kriging"}, {"kriging_moving", "Kriging"}, {"kriging_extdrift", "Kriging"}, {"xvalid", "Xvalid"},
-      {"test_neigh", "Neigh"}, {"simtub_nc", "Simu"}, {"simtub_cond", "Simu"}, {"migrate", "Migrate"},
-      {"stats_grid", "Stats"}, {"simple_interp", "InvDist"}, {"simfft", "FFT"}, {"anam_transform", "Y"},
-      {"regression", "Regr"}, {"krigtest", "Kriging"}, {"nearest_neighbor", "Nearest"}, {"moving_average", "MovAve"},
-      {"least_squares", "LstSqr"}, {"migrate_multi", "Migrate"}, {"migrate_locator", "Migrate"}, {"kribayes", "Bayes"}};
-    auto it = PFX.find(profile);
-    e.prefix = it == PFX.end() ? "" : it->second;
-    applyPrior(e.dbout, prior, e.prefix);
-  }
-  pre_in = project(e.dbin);
-  pre_out = project(e.dbout);
+  int ndimModel = (variant == "ndim_mismatch") ? 3 : 2;
+  int nvarModel = (variant == "nvar_mismatch" || variant == "nvar_model_two") ? 2 : 1;
+  bool withZ = variant != "no_z";
+  bool ext = profile == "kriging_extdrift";
+  auto it = PFX.find(profile);
+  e.prefix = it == PFX.end() ? "" : it->second;
 
-  int err = 1;
-  if (profile == "kriging" || profile == "kriging_moving" || profile == "kriging_extdrift")
+  // ------------------------------------------------ data bases
+  if (SAME_DATA.count(profile))
   {
-    EKrigOpt calcul = (variant == "block_on_points") ? EKrigOpt::BLOCK : EKrigOpt::POINT;
-    VectorInt ndiscs; if (variant == "block_on_points") ndiscs = {2, 2};
+    e.same = true;
+    e.dbin = makeData(ndim, 1, withZ, false);
+    if (profile == "simupost_self")
+    { addCol(e.dbin, "SimA.1", 1.0, 0.3); addCol(e.dbin, "SimA.2", 2.0, -0.2); }
+    e.dbout = e.dbin;
+  }
+  else if (SAME_GRID.count(profile))
+  {
+    e.same = true;
+    int nz = (variant == "two_z") ? 2 : 1;
+    DbGrid* g = makeGridZ({5, 5}, nz, withZ);
+    if (profile == "cond_expectation" || profile == "uniform_cond")
+    { addCol(g, "K.estim", -0.8, 0.07); addCol(g, "K.stdev", 0.35, 0.01); }
+    if (profile == "disj_kriging")
+    {
+      addCol(g, "F.1.estim", -0.5, 0.04); addCol(g, "F.2.estim", 0.2, -0.01);
+      addCol(g, "F.1.stdev", 0.4, 0.005); addCol(g, "F.2.stdev", 0.6, 0.004);
+    }
+    e.dbin = g;
+    e.dbout = e.dbin;
+  }
+  else if (OUT_ONLY.count(profile))
+  {
+    e.dbin = nullptr;
+    if (profile == "simtub_nc") e.dbout = makeGrid(ndim, false);
+    else
+    {
+      DbGrid* g = DbGrid::create({6, 6}, {0.5, 0.5}, {0.25, 0.25});
+      if (profile == "eden" || profile == "eden_stats")
+      {
+        int n = g->getSampleNumber();
+        VectorDouble fac(n), flu(n, TEST);
+        for (int i = 0; i < n; i++) fac[i] = 1 + ((i / 3) % 2);
+        flu[0] = 1.;
+        g->addColumns(fac, "Facies"); g->addColumns(flu, "Fluid");
+      }
+      e.dbout = g;
+    }
+  }
+  else if (profile == "simu_refine")
+  {
+    e.dbin = makeGridZ({3, 3}, 1, withZ);
+    e.dbout = nullptr;
+  }
+  else if (profile.rfind("g2g_", 0) == 0)
+  {
+    bool wrong = variant == "wrong_dims";
+    if (profile == "g2g_copy") { e.dbin = makeGridZ({3, 3}, 1, withZ); e.dbout = wrong ? makeGrid(3, false) : makeGrid(2, false); }
+    if (profile == "g2g_expand") { e.dbin = makeGridZ({3, 3}, 1, withZ); e.dbout = wrong ? makeGrid(2, false) : makeGrid(3, false); }
+    if (profile == "g2g_shrink")
+    {
+      e.dbin = wrong ? makeGridZ({3, 3}, 1, withZ) : makeGridZ({3, 3, 3}, 1, withZ);
+      DbGrid* g = makeGridZ({3, 3}, 1, true); g->setName("z1", "target");
+      e.dbout = g;
+    }
+    if (profile == "g2g_interp")
+    {
+      DbGrid* g = makeGridZ({3, 3}, 2, withZ);
+      addCol(g, "Top", 2.5, 0.01); addCol(g, "Bot", 0.1, 0.01);
+      e.dbin = g; e.dbout = wrong ? makeGrid(2, false) : makeGrid(3, false);
+    }
+  }
+  else if (profile == "simupost_up" || profile == "simupost_demo" || profile == "simupost_layer")
+  {
+    e.dbin = makeData(ndim, 1, true, false);
+    addCol(e.dbin, "SimA.1", 0.2, 0.05); addCol(e.dbin, "SimA.2", 0.3, 0.04);
+    addCol(e.dbin, "SimB.1", 0.4, 0.03); addCol(e.dbin, "SimB.2", 0.5, 0.02);
+    e.dbout = (profile == "simupost_layer") ? makeGrid(3, false) : makeGrid(2, false);
+  }
+  else if (profile == "point_to_block" || profile == "expand_point_to_grid")
+  {
+    e.dbin = makePoints(variant == "ndim_mismatch" ? 1 : 2);
+    addCol(e.dbin, "val", 3.0, 1.5);
+    e.dbout = makeGrid(2, false);
+  }
+  else if (profile == "interp_to_point")
+  {
+    e.dbin = makeGridZ({3, 3}, 1, true);
+    e.dbout = nullptr;
+  }
+  else if (profile == "simbool")
+  {
+    e.dbin = makeData(ndim, variant == "two_z" ? 2 : 1, true, false);
+    int u1 = e.dbin->getUID("z1");
+    static const double G[7] = {1, 0, 0, 0, 1, 0, 0};
+    for (int i = 0; i < 7; i++) e.dbin->setArray(i, u1, G[i]);
+    e.dbout = DbGrid::create({10, 10}, {0.3, 0.3}, {0.15, 0.15});
+  }
+  else if (profile == "db_proportion")
+  {
+    e.dbin = makeData(ndim, 1, withZ, false);
+    int u1 = e.dbin->getUID("z1");
+    for (int i = 0; i < 7; i++) e.dbin->setArray(i, u1, 1 + (i % 2));
+    e.dbout = makeGridZ({4, 4}, 0);
+  }
+  else
+  {
+    e.dbin = makeData(ndim, 1, withZ, ext && variant != "expand");
+    if (variant == "points_out" || variant == "block_on_points") e.dbout = makePoints(ndim);
+    else e.dbout = makeGrid(ndim, ext && variant != "no_ext_out");
+  }
+
+  // profile-specific columns of the input / output data bases
+  if (profile == "krigcell")
+  {
+    DbGrid* g = dynamic_cast<DbGrid*>(e.dbout);
+    if (g != nullptr) { addCol(g, "bx1", 0.8, 0.01, ELoc::BLEX, 0); addCol(g, "bx2", 0.7, 0.02, ELoc::BLEX, 1); }
+  }
+  if (profile == "krigprof" && variant != "no_code")
+  {
+    int n = e.dbin->getSampleNumber();
+    VectorDouble code(n), verr(n);
+    for (int i = 0; i < n; i++) { code[i] = 1 + (i % 2); verr[i] = 0.05 + 0.01 * i; }
+    e.dbin->addColumns(code, "code", ELoc::C); e.dbin->addColumns(verr, "verr", ELoc::V);
+  }
+
+  // ------------------------------------------------ model / anamorphosis / neighbourhood
+  double sill = 1.5;
+  if (ANAM_MODEL.count(profile)) sill = 1.0;
+  if (variant == "sill_not_one" || variant == "sill_above_one") sill = 1.5;
+  e.model = makeModel(ndimModel, nvarModel, ext, sill);
+  if (profile == "krimage")
+  { delete e.model; e.model = new Model(); e.model->addCovFromParam(ECov::NUGGET, 0., 0.5); e.model->addCovFromParam(ECov::SPHERICAL, 3., 1.); }
+  if (variant == "no_model") { delete e.model; e.model = nullptr; }
+  if ((profile == "kribayes" || profile == "simbayes") && e.model != nullptr) e.model->setDriftIRF(0);
+
+  bool needAnam = ANAM_MODEL.count(profile) || profile == "anam_transform" || profile == "gaussian_to_raw" ||
+                  profile == "normal_score" || profile == "raw_to_factor" || profile == "raw_to_factor_ranks" ||
+                  profile == "cond_expectation" || profile == "uniform_cond" || profile == "disj_kriging";
+  if (needAnam)
+  {
+    e.anam = AnamHermite::create(12);
+    if (variant != "anam_not_fitted")
+    {
+      // fitted on the raw variable of a scratch copy of the standard data (never on the scenario's own objects)
+      Db* ref = makeData(2, 1, true, false);
+      e.anam->fitFromLocator(ref);
+      delete ref;
+    }
+    bool support = (profile == "kriging_dgm" || profile == "simtub_dgm" || profile == "krig_factors_cs" || profile == "uniform_cond") &&
+                   variant != "no_support";
+    if (support) e.anam->setRCoef(0.85);
+    if (ANAM_MODEL.count(profile) && profile != "kriggam" && variant != "no_anam" && e.model != nullptr) e.model->setAnam(e.anam);
+  }
+  if (profile == "krig_factors" || profile == "krig_factors_cs")
+  {
+    // the factors of the raw variable become the variables of the input data base
+    AnamHermite* a = AnamHermite::create(12);
+    Db* ref = makeData(2, 1, true, false); a->fitFromLocator(ref); delete ref;
+    a->rawToFactor(e.dbin, 2);
+    delete a;
+  }
+  if (profile == "cond_expectation" || profile == "uniform_cond" || profile == "disj_kriging")
+  {
+    if (variant != "no_selectivity")
+      e.sel = Selectivity::createByCodes({ESelectivity::T}, {0.5}, true, true);
+  }
+
+  bool moving = profile == "test_neigh" || variant == "moving" || profile == "moving_average" || profile == "least_squares" ||
+                profile == "moving_median";
+  if (profile == "krimage" || profile == "db_smoother" || variant == "image_neigh") e.neigh = NeighImage::create({1, 1});
+  else if (moving) e.neigh = NeighMoving::create(false, 5, 10.);
+  else e.neigh = NeighUnique::create();
+  if (variant == "no_neigh") { delete e.neigh; e.neigh = nullptr; }
+
+  if (profile == "simbool" || profile == "simbool_nc")
+  {
+    e.tokens = new ModelBoolean(2., true);
+    ShapeParallelepiped tok(1., 0.3, 0.3, 1.);
+    e.tokens->addToken(tok);
+  }
+}
+
+// prior content "clash": columns that collide with what the calculator will create (the very names
+// it produces on these inputs, learnt from a fault-free run on a scratch copy of the scenario), columns
+// already carrying the role types given to outputs, plus an unrelated column with a role
+static void applyClash(const std::string& profile, const std::string& variant, Env& e)
+{
+  std::vector<std::string> newOut, newIn;
+  {
+    Env s;
+    setup(profile, variant, s);
+    std::vector<std::string> o0 = namesOf(s.dbout), i0 = namesOf(s.dbin);
+    verifFaultReset();
+    (void) invoke(profile, variant, s);
+    std::vector<std::string> o1 = namesOf(s.dbout), i1 = namesOf(s.dbin);
+    for (size_t k = o0.size(); k < o1.size(); k++) newOut.push_back(o1[k]);
+    if (!s.same) for (size_t k = i0.size(); k < i1.size(); k++) newIn.push_back(i1[k]);
+  }
+  auto fill = [](Db* db, const std::string& name, double a, const ELoc& loc) {
+    int n = db->getSampleNumber();
+    VectorDouble v(n);
+    for (int i = 0; i < n; i++) v[i] = a + 0.5 * i;
+    db->addColumns(v, name, loc, 0);
+  };
+  if (e.dbout != nullptr)
+  {
+    bool rolesToo = !e.same || OLD_SAME.count(profile);
+    fill(e.dbout, e.prefix + ".z1.estim", 100., rolesToo ? ELoc::Z : ELoc::UNKNOWN);
+    fill(e.dbout, e.prefix + ".z1.stdev", 200., rolesToo ? ELoc::V : ELoc::UNKNOWN);
+    int n = e.dbout->getSampleNumber();
+    VectorDouble c(n);
+    for (int i = 0; i < n; i++) c[i] = (i % 2);
+    e.dbout->addColumns(c, "keepme", ELoc::W, 0);
+    std::vector<std::string> have = namesOf(e.dbout);
+    int k = 0;
+    for (const auto& nm : newOut)
+      if (std::find(have.begin(), have.end(), nm) == have.end()) fill(e.dbout, nm, 300. + (k++), ELoc::UNKNOWN);
+  }
+  if (e.dbin != nullptr && !e.same)
+  {
+    int k = 0;
+    for (const auto& nm : newIn) fill(e.dbin, nm, 400. + (k++), ELoc::UNKNOWN);
+  }
+}
+
+// Call the entry point on the objects of the scenario. Returns the error code of the call.
+static int invoke(const std::string& profile, const std::string& variant, Env& e)
+{
+  int err = 1;
+  EKrigOpt calcul = (variant == "block_on_points") ? EKrigOpt::BLOCK : EKrigOpt::POINT;
+  VectorInt ndiscs; if (variant == "block_on_points") ndiscs = {2, 2};
+  DbGrid* gout = dynamic_cast<DbGrid*>(e.dbout);
+  DbGrid* gin = dynamic_cast<DbGrid*>(e.dbin);
+
+  if (profile == "kriging" || profile == "kriging_moving" || profile == "kriging_extdrift" || profile == "kriging_varz")
+  {
+    bool varz = profile == "kriging_varz";
     if (variant == "nolocator")
-      err = kriging(e.dbin, e.dbout, e.model, e.neigh, calcul, true, true, false, ndiscs, VectorInt(), nullptr,
+      err = kriging(e.dbin, e.dbout, e.model, e.neigh, calcul, true, true, varz, ndiscs, VectorInt(), nullptr,
                     NamingConvention("Kriging", true, true, false));
     else
-      err = kriging(e.dbin, e.dbout, e.model, e.neigh, calcul, true, true, false, ndiscs);
-    e.expectedNew = 2;
+      err = kriging(e.dbin, e.dbout, e.model, e.neigh, calcul, true, true, varz, ndiscs);
   }
+  else if (profile == "kriging_dgm")
+    err = kriging(e.dbin, e.dbout, e.model, e.neigh, EKrigOpt::DGM);
   else if (profile == "krigtest")
   {
-    EKrigOpt calcul = (variant == "block_on_points") ? EKrigOpt::BLOCK : EKrigOpt::POINT;
-    VectorInt ndiscs; if (variant == "block_on_points") ndiscs = {2, 2};
     Krigtest_Res r = krigtest(e.dbin, e.dbout, e.model, e.neigh, 1, calcul, ndiscs, false, false);
     err = (!r.nbgh.empty()) ? 0 : 1;   // krigtest has no error code: an empty result is its failure report
-    e.expectedNew = 0;
   }
   else if (profile == "xvalid")
   {
@@ -241,17 +499,59 @@ static int runScenario(const std::string& profile, const std::string& variant, c
       err = xvalid(e.dbin, e.model, e.neigh, false, 1, 1, 0, VectorInt(), NamingConvention("Xvalid", true, true, false));
     else
       err = xvalid(e.dbin, e.model, e.neigh);
-    e.expectedNew = 2;
   }
   else if (profile == "test_neigh")
-  {
     err = test_neigh(e.dbin, e.dbout, e.model, e.neigh);
-    e.expectedNew = 5;
+  else if (profile == "krigcell")
+  {
+    VectorInt nd = {2, 2}; if (variant == "no_ndisc") nd.clear();
+    if (variant == "nolocator")
+      err = krigcell(e.dbin, e.dbout, e.model, e.neigh, true, true, nd, VectorInt(), NamingConvention("KrigCell", true, true, false));
+    else
+      err = krigcell(e.dbin, e.dbout, e.model, e.neigh, true, true, nd);
+  }
+  else if (profile == "krigprof")
+    err = krigprof(e.dbin, e.dbout, e.model, e.neigh);
+  else if (profile == "kriggam")
+    err = kriggam(e.dbin, e.dbout, e.model, e.neigh, e.anam);
+  else if (profile == "krig_factors" || profile == "krig_factors_cs")
+  {
+    EKrigOpt c = calcul; VectorInt nd = ndiscs;
+    if (variant == "block_no_ndisc") { c = EKrigOpt::BLOCK; nd.clear(); }
+    err = krigingFactors(e.dbin, e.dbout, e.model, e.neigh, c, nd);
+  }
+  else if (profile == "krimage")
+    err = krimage(gin, e.model, e.neigh);
+  else if (profile == "db_smoother")
+    err = dbSmoother(gin, e.neigh, variant == "bad_type" ? 3 : (variant == "gaussian" ? 2 : 1), 1.5);
+  else if (profile == "morpho" || profile == "morpho_gradient")
+  {
+    EMorpho oper = EMorpho::EROSION;
+    if (profile == "morpho_gradient") oper = EMorpho::GRADIENT;
+    else if (variant == "dilate") oper = EMorpho::DILATION;
+    else if (variant == "thresh") oper = EMorpho::THRESH;
+    else if (variant == "open") oper = EMorpho::OPEN;
+    else if (variant == "unknown_oper") oper = EMorpho::UNKNOWN;
+    if (variant == "nolocator")
+      err = dbMorpho(gin, oper, 0.5, 2.5, 0, {1, 1}, false, false, NamingConvention("Morpho", true, true, false));
+    else
+      err = dbMorpho(gin, oper, 0.5, 2.5, 0, {1, 1});
+  }
+  else if (profile == "global_arithmetic" || profile == "global_kriging")
+  {
+    int ivar0 = variant == "bad_ivar" ? 3 : 0;
+    Global_Result g = (profile == "global_arithmetic") ? global_arithmetic(e.dbin, gout, e.model, ivar0, false)
+                                                       : global_kriging(e.dbin, e.dbout, e.model, ivar0, false);
+    err = g.weights.empty() ? 1 : 0;   // no error code: the result structure is left unfilled by a failure
   }
   else if (profile == "simtub_nc" || profile == "simtub_cond")
+    err = simtub(e.dbin, e.dbout, e.model, e.neigh, 2, 4321, variant == "nbtuba_zero" ? 0 : 20);
+  else if (profile == "simtub_dgm")
+    err = simtub(e.dbin, e.dbout, e.model, e.neigh, 2, 4321, 20, true);
+  else if (profile == "simbayes")
   {
-    err = simtub(e.dbin, e.dbout, e.model, e.neigh, 2, 4321, 20);
-    e.expectedNew = 2;
+    MatrixSquareSymmetric pc(1); pc.setValue(0, 0, 0.5);
+    err = simbayes(e.dbin, e.dbout, e.model, e.neigh, 2, 4321, {0.3}, pc, 20);
   }
   else if (profile == "migrate")
   {
@@ -259,25 +559,17 @@ static int runScenario(const std::string& profile, const std::string& variant, c
       err = migrate(e.dbin, e.dbout, "z1", 1, VectorDouble(), false, false, false, NamingConvention("Migrate", false, true, false));
     else
       err = migrate(e.dbin, e.dbout, variant == "bad_name" ? "nosuchvar" : "z1");
-    e.expectedNew = 1;
   }
   else if (profile == "stats_grid")
-  {
-    DbGrid* g = dynamic_cast<DbGrid*>(e.dbout);
-    err = (g == nullptr) ? 1 : dbStatisticsOnGrid(e.dbin, g, EStatOption::MEAN);
-    e.expectedNew = 1;
-  }
+    err = dbStatisticsOnGrid(e.dbin, gout, EStatOption::MEAN);
   else if (profile == "simple_interp")
-  {
     err = inverseDistance(e.dbin, e.dbout);
-    e.expectedNew = 1;
-  }
-  else if (profile == "simfft")
+  else if (profile == "invdist_std")
+    err = inverseDistance(e.dbin, e.dbout, 2., false, TEST, true, true, e.model);
+  else if (profile == "simfft" || profile == "simfft_multi")
   {
     SimuFFTParam param;
-    DbGrid* g = dynamic_cast<DbGrid*>(e.dbin);
-    err = simfft(g, e.model, param, 1, 5531);
-    e.expectedNew = 1;
+    err = simfft(gin, e.model, param, profile == "simfft_multi" ? 2 : 1, 5531);
   }
   else if (profile == "anam_transform")
   {
@@ -285,43 +577,110 @@ static int runScenario(const std::string& profile, const std::string& variant, c
       err = e.anam->rawToGaussian(e.dbin, variant == "bad_name" ? "nosuchvar" : "z1");
     else
       err = e.anam->rawToGaussianByLocator(e.dbin);
-    e.expectedNew = 1;
   }
+  else if (profile == "gaussian_to_raw")
+  {
+    if (variant == "by_name" || variant == "bad_name")
+      err = e.anam->gaussianToRaw(e.dbin, variant == "bad_name" ? "nosuchvar" : "z1");
+    else
+      err = e.anam->gaussianToRawByLocator(e.dbin);
+  }
+  else if (profile == "normal_score")
+    err = e.anam->normalScore(e.dbin, variant == "bad_name" ? "nosuchvar" : "z1");
+  else if (profile == "raw_to_factor")
+    err = e.anam->rawToFactor(e.dbin, 2);
+  else if (profile == "raw_to_factor_ranks")
+    err = e.anam->rawToFactorByRanks(e.dbin, variant == "bad_rank" ? VectorInt({0, 99}) : VectorInt({1, 3}));
+  else if (profile == "cond_expectation")
+    err = ConditionalExpectation(e.dbin, e.anam, e.sel, variant == "bad_name" ? "nosuch" : "K.estim", "K.stdev", false, TEST,
+                                 variant == "montecarlo" ? 20 : 0);
+  else if (profile == "uniform_cond")
+    err = UniformConditioning(e.dbin, e.anam, e.sel, variant == "bad_name" ? "nosuch" : "K.estim", "K.stdev");
+  else if (profile == "disj_kriging")
+    err = DisjunctiveKriging(e.dbin, e.anam, e.sel, {variant == "bad_name" ? "nosuch" : "F.1.estim", "F.2.estim"},
+                             {"F.1.stdev", "F.2.stdev"});
   else if (profile == "regression")
-  {
     err = dbRegression(e.dbin, "z1", {variant == "bad_name" ? "nosuchvar" : "x1"});
-    e.expectedNew = 1;
-  }
   else if (profile == "nearest_neighbor")
-  {
     err = nearestNeighbor(e.dbin, e.dbout);
-    e.expectedNew = 1;
-  }
   else if (profile == "moving_average")
-  {
     err = movingAverage(e.dbin, e.dbout, e.neigh);
-    e.expectedNew = 1;
-  }
+  else if (profile == "moving_median")
+    err = movingMedian(e.dbin, e.dbout, e.neigh);
   else if (profile == "least_squares")
-  {
     err = leastSquares(e.dbin, e.dbout, e.neigh, 1);
-    e.expectedNew = 1;
-  }
   else if (profile == "migrate_multi")
-  {
     err = migrateMulti(e.dbin, e.dbout, {variant == "bad_name" ? "nosuchvar" : "z1", "x1"});
-    e.expectedNew = 2;
-  }
   else if (profile == "migrate_locator")
-  {
-    err = migrateByLocator(e.dbin, e.dbout, ELoc::Z);
-    e.expectedNew = 1;
-  }
+    err = migrateByLocator(e.dbin, e.dbout, ELoc::Z, variant == "bad_dist_type" ? 3 : 1);
+  else if (profile == "migrate_attr")
+    err = migrateByAttribute(e.dbin, e.dbout, VectorInt(), variant == "bad_dist_type" ? 3 : 1);
   else if (profile == "kribayes")
   {
     MatrixSquareSymmetric pc(1); pc.setValue(0, 0, 0.5);
     err = kribayes(e.dbin, e.dbout, e.model, e.neigh, {0.3}, pc, true, true);
-    e.expectedNew = 2;
+  }
+  else if (profile == "tess_voronoi")
+    err = tessellation_voronoi(gout, e.model, SimuPartitionParam(20, 1.5), 3322);
+  else if (profile == "tess_poisson")
+    err = tessellation_poisson(gout, e.model, SimuPartitionParam(20, variant == "no_plane" ? 0. : 1.5), 3322);
+  else if (profile == "substitution")
+  {
+    SimuSubstitutionParam sp(3, 1.);
+    err = substitution(gout, sp, 3322);
+  }
+  else if (profile == "eden" || profile == "eden_stats")
+  {
+    bool stats = profile == "eden_stats";
+    int nfluids = stats ? 2 : 1, nfacies = 2;
+    VectorInt speeds;
+    if (variant == "zero_speed") speeds = VectorInt(6 * nfacies * nfluids, 0);
+    err = fluid_propagation(gout, variant == "bad_name" ? "nosuch" : "Facies", "Fluid", "", "", nfacies, nfluids, stats ? 2 : 1, speeds);
+  }
+  else if (profile == "simu_refine")
+  {
+    DbGrid* r = simulation_refine(gin, e.model, SimuRefineParam(1), 3322);
+    err = (r == nullptr) ? 1 : 0;
+    delete r;
+  }
+  else if (profile == "simbool" || profile == "simbool_nc")
+  {
+    SimuBooleanParam bp;
+    if (variant == "cannot_cover") bp.setMaxiter(2);   // two grains to cover, one drawing allowed
+    if (variant == "nolocator")
+      err = simbool(e.dbin, gout, e.tokens, bp, 432431, true, true, false, NamingConvention("Boolean", true, true, false));
+    else
+      err = simbool(e.dbin, gout, e.tokens, bp);
+  }
+  else if (profile == "g2g_copy") err = dbg2gCopy(gin, gout);
+  else if (profile == "g2g_expand") err = dbg2gExpand(gin, gout);
+  else if (profile == "g2g_shrink") err = dbg2gShrink(gin, gout);
+  else if (profile == "g2g_interp")
+    err = dbg2gInterpolate(gin, gout, variant == "bad_tops" ? VectorString({"Top", "Bot"}) : VectorString({"Top"}), {"Bot"});
+  else if (profile == "simupost_up" || profile == "simupost_self" || profile == "simupost_demo" || profile == "simupost_layer")
+  {
+    VectorString names = {variant == "bad_name" ? "nosuch*" : "SimA*"};
+    std::vector<EPostStat> stats = {EPostStat::MEAN, EPostStat::VAR};
+    if (profile == "simupost_layer") { names.push_back("SimB*"); stats = {EPostStat::MEAN}; }
+    if (variant == "no_stat") stats.clear();
+    EPostUpscale up = variant == "no_upscale" ? EPostUpscale::UNKNOWN : EPostUpscale::MEAN;
+    if (profile == "simupost_up") err = simuPost(e.dbin, gout, names, false, up, stats);
+    else if (profile == "simupost_self") err = simuPost(e.dbin, nullptr, names, false, up, stats);
+    else if (profile == "simupost_demo") err = simuPostDemo(e.dbin, gout, names, false, up, stats);
+    else err = simuPostPropByLayer(e.dbin, gout, names, false, true, up, stats);
+  }
+  else if (profile == "point_to_block")
+    err = pointToBlock(e.dbin, gout, 0, 0, -1, -1, -1, -1, -1, -1);
+  else if (profile == "expand_point_to_grid")
+  {
+    VectorDouble tab(gout->getSampleNumber(), 0.);
+    err = expandPointToGrid(e.dbin, gout, e.dbin->getUID("val"), -1, -1, -1, -1, -1, 0, 1, VectorDouble(), tab);
+  }
+  else if (profile == "interp_to_point")
+  {
+    static const double xp[3] = {0.6, 1.4, 2.1}, yp[3] = {0.9, 1.1, 1.9};
+    double tab[3];
+    err = interpolateVariableToPoint(gin, gin->getUID("z1"), 3, xp, variant == "no_coord" ? nullptr : yp, nullptr, tab);
   }
   else
     throw std::runtime_error("unknown profile " + profile);
@@ -358,46 +717,47 @@ int main(int argc, char** argv)
     snprintf(CUR, sizeof CUR, "%s", vj::dump(sc).c_str());
     std::string profile = sc.at("profile").s(), fault = sc.at("fault").s(), variant = sc.at("variant").s(),
                 prior = sc.at("prior").s();
+    bool noerr = sc.getb("noerr", false);
     Env e;
-    Value pre_in, pre_out;
     verifFaultReset();
-    if (fault == "after_check") verifFaultArm("calc.after_check", 1);
-    else if (fault == "after_preprocess") verifFaultArm("calc.after_preprocess", 1);
-    else if (fault == "after_run") verifFaultArm("calc.after_run", 1);
-    else if (fault.rfind("addvar", 0) == 0) verifFaultArm("calc.addvar", atoi(fault.c_str() + 6));
-    int err = runScenario(profile, variant, prior, e, pre_in, pre_out);
+    law_set_random_seed(1234 + is);
+    setup(profile, variant, e);
+    if (prior == "clash") applyClash(profile, variant, e);
+    verifFaultReset();
+    std::string site; int nth = 1;
+    if (fault == "after_check") site = "calc.after_check";
+    else if (fault == "after_preprocess") site = "calc.after_preprocess";
+    else if (fault == "after_run") site = "calc.after_run";
+    else if (fault.rfind("addvar", 0) == 0) { site = "calc.addvar"; nth = atoi(fault.c_str() + 6); }
+    if (!site.empty()) verifFaultArm(site, nth);
+    Value pre_in = project(e.dbin), pre_out = project(e.dbout);
+    int err = invoke(profile, variant, e);
     int addvarVisits = verifFaultVisits("calc.addvar");
+    bool struck = !site.empty() && verifFaultVisits(site) >= nth;
     verifFaultReset();
-    Value rec = Value::object();
-    rec["scen"] = sc;
-    rec["ret"] = Value(err == 0 ? "ok" : "fail");
-    rec["same"] = Value(e.same);
-    rec["in_pre"] = pre_in; rec["out_pre"] = pre_out;
-    rec["in_post"] = project(e.dbin); rec["out_post"] = project(e.dbout);
-    rec["expected_new"] = Value(e.expectedNew);
-    rec["prefix"] = chars(e.prefix);
-    rec["addvar_visits"] = Value(addvarVisits);
-    rec["second"] = Value(false);
-    rec["noerrcode"] = Value(profile == "krigtest");
-    fprintf(fo, "%s\n", vj::dump(rec).c_str());
+    auto emit = [&](int code, const Value& pin, const Value& pout, bool second, bool str, int visits) {
+      Value rec = Value::object();
+      rec["scen"] = sc;
+      rec["ret"] = Value(code == 0 ? "ok" : "fail");
+      rec["same"] = Value(e.same);
+      rec["in_pre"] = pin; rec["out_pre"] = pout;
+      rec["in_post"] = project(e.dbin); rec["out_post"] = project(e.dbout);
+      rec["prefix"] = chars(e.prefix);
+      rec["prefix_in"] = chars(e.prefixIn);
+      rec["addvar_visits"] = Value(visits);
+      rec["struck"] = Value(str);
+      rec["second"] = Value(second);
+      rec["noerrcode"] = Value(noerr);
+      fprintf(fo, "%s\n", vj::dump(rec).c_str());
+    };
+    emit(err, pre_in, pre_out, false, struck, addvarVisits);
     // Usable: after a reported failure the objects remain usable -> a fault-free call on the same
     // objects (for natural failures the same failing input again: it must fail cleanly again)
     if (err != 0)
     {
-      Value p_in, p_out;
-      int err2 = runScenario(profile, variant, prior, e, p_in, p_out, true);
-      Value rec2 = Value::object();
-      rec2["scen"] = sc;
-      rec2["ret"] = Value(err2 == 0 ? "ok" : "fail");
-      rec2["same"] = Value(e.same);
-      rec2["in_pre"] = p_in; rec2["out_pre"] = p_out;
-      rec2["in_post"] = project(e.dbin); rec2["out_post"] = project(e.dbout);
-      rec2["expected_new"] = Value(e.expectedNew);
-      rec2["prefix"] = chars(e.prefix);
-      rec2["addvar_visits"] = Value(0);
-      rec2["second"] = Value(true);
-      rec2["noerrcode"] = Value(profile == "krigtest");
-      fprintf(fo, "%s\n", vj::dump(rec2).c_str());
+      Value p_in = project(e.dbin), p_out = project(e.dbout);
+      int err2 = invoke(profile, variant, e);
+      emit(err2, p_in, p_out, true, false, 0);
     }
   }
   fclose(fo);
